@@ -280,7 +280,14 @@ def gen_cases(prop, tier, rng):
 
 def run(chk, tier, prop):
     cases = corpus_cases(prop) + gen_cases(prop, tier, chk.rng)
-    impl = screen_impl.run_cases(cases, nproc=14)
+    # a changed implementation that hangs on a large share of the sessions would eat the whole time limit (every hang costs a
+    # per-case time-out): when more than 40 of the first 400 sessions hang, judge those 400 and leave the rest
+    impl = screen_impl.run_cases(cases[:400], nproc=14)
+    if sum(1 for i in impl if i and i[0] == "HANG") > 40:
+        cases = cases[:400]
+        chk.hist("many-hangs:judged-the-first-400-sessions-only")
+    else:
+        impl += screen_impl.run_cases(cases[400:], nproc=14)
     kept, kimpl, hangs = [], [], []
     for c, i in zip(cases, impl):
         chk.count()
@@ -300,7 +307,10 @@ def run(chk, tier, prop):
         chk.hist("outcome=%s" % (i[0][-1] if i[0] else "none"))
     # sessions on which the implementation did not come back within the short limit
     nretry = 0
+    nhang_viol = 0
     for c in hangs:
+        if nhang_viol >= 3:
+            chk.hist("hang:not-examined(3 hanging sessions already reported)"); continue
         c2 = copy.deepcopy(c); c2[0] = 4000
         m = lib.model_run("screen", [c2[:6]])[0]
         if m[0] and m[0][-1] == 5:
@@ -318,6 +328,7 @@ def run(chk, tier, prop):
         if again and again[0] in ("HANG", "ERROR"):
             chk.violation("impl-hangs", "the implementation hangs on a session that the model finishes with outcomes %s" % m[0],
                           dict(kind="screen", prop=prop, case=c, model_tail=pretty(m[1])[-30:]), found=True)
+            nhang_viol += 1
         elif 5 not in again[0]:
             chk.hist("hang:slow-machine-retry-ok")
             c3 = copy.deepcopy(c); c3[0] = 100 + 6 * len(again[1])
